@@ -73,6 +73,11 @@ def finish(pid, P, props, tier, seed, results, known, t0, warnings, scratch_root
                 obligations.append(o)
         for u in r.get("undecided", []):
             undecided.append("%s: %s" % (r["unit"], u))
+        # a function that the edited source newly calls was taken without a contract: callers cannot be decided
+        new_fns = [a.split("\n")[-1] for a in r.get("auto_resolved", []) if " fn " in a.split("\n")[-1] or a.split("\n")[-1].startswith("@@take fn")]
+        if new_fns and r.get("failures"):
+            undecided.append("%s: the source now calls function(s) without a contract (%s); %d obligation(s) could not be decided" % (r["unit"], "; ".join(new_fns), len(r["failures"])))
+            r = dict(r, failures=[])
         for f in r.get("failures", []):
             ob_id = "%s::%s" % (r["unit"], f["label"])
             if owned_elsewhere(props, pid, ob_id):
